@@ -32,8 +32,25 @@ def gen_behaviours(v, tier, seed):
     os.unlink(r.outfile)
     if k3 < n3 // 2:
         raise Internal("Sched simulation (pieces of three blocks) produced only %d behaviours" % k3)
+    # schedules on which a deviation of the specification breaks a property (GenSchedDev.tla): a late good block for a piece
+    # completed through another peer that nobody releases; a choke from a fast peer that forgets what the remote still holds
+    r = run_tlc("GenSchedDev", "Sched_dev.cfg", workers=8, timeout=1800)
+    require_ok(r, "Sched deviation schedules")
+    dev = {"dup": [], "conservation": []}
+    for p in sorted(set(r.lines("BEH"))):
+        d = json.loads(p)
+        dev[d["bad"]].append(d["steps"])
+    os.unlink(r.outfile)
+    if len(dev["dup"]) < 100 or len(dev["conservation"]) < 5:
+        raise Internal("Sched_dev.cfg: the deviations are not refuted (%d / %d schedules)" % (len(dev["dup"]), len(dev["conservation"])))
+    rng = random.Random(seed + 17)
+    rng.shuffle(dev["dup"])
+    picked = dev["conservation"] + dev["dup"][:300 if tier == "quick" else 6000]
+    for steps in picked:
+        scen.append({"steps": steps, "geom": 0})
     v.cov["simulated_behaviours"] = len(scen)
     v.cov["simulated_behaviours_three_block_pieces"] = k3
+    v.cov["deviation_schedules"] = {"late_dup_silent": len(dev["conservation"]), "choke_forgets_fast": len(dev["dup"]), "replayed": len(picked)}
     return scen
 
 
